@@ -392,6 +392,12 @@ func sanitize(s string) string {
 		if r == '|' || r == '\\' {
 			return '_'
 		}
+		if r == ' ' || r == '\t' || r == '\n' {
+			return -1 // quoted symbols with blanks would confuse the s-expression splitter
+		}
+		if r == '(' || r == ')' || r == '"' {
+			return '_'
+		}
 		return r
 	}, s)
 }
